@@ -38,7 +38,15 @@ pub enum Op {
     BlockContext { l: usize, text: String },
     BlockAdd { l: usize, kind: Kind, text: String },
     Append { t: usize, l: usize, kp: usize },
-    From { t: usize, pk: usize, corrupt: bool },
+    From {
+        t: usize,
+        pk: usize,
+        corrupt: bool,
+        /// how the bytes are damaged when `corrupt`: 0 one byte flipped, 1..4 structured (a
+        /// signature or key field of the wrong length), 5 truncated
+        #[serde(default)]
+        how: u8,
+    },
     /// a token minted by another party through the Rust API (content the C builders cannot
     /// write: text holding a NUL, a third-party block, very long text, 3.3 values) loaded with
     /// biscuit_from
@@ -190,7 +198,33 @@ fn expected_kind(e: &MErr) -> Vec<u32> {
         MErr::Lib(Token::RunLimit(RunLimit::TooManyFacts)) => k(c::ErrorKind::TooManyFacts),
         MErr::Lib(Token::RunLimit(RunLimit::TooManyIterations)) => k(c::ErrorKind::TooManyIterations),
         MErr::Lib(Token::Execution(_)) => k(c::ErrorKind::Execution),
-        MErr::Lib(Token::Format(_)) | MErr::Lib(Token::Base64(_)) => {
+        // Format errors: the C kind that carries the same name as the Rust variant
+        MErr::Lib(Token::Format(f)) => k(match f {
+            Format::Signature(Signature::InvalidFormat) => c::ErrorKind::FormatSignatureInvalidFormat,
+            Format::Signature(Signature::InvalidSignature(_)) => c::ErrorKind::FormatSignatureInvalidSignature,
+            Format::Signature(Signature::InvalidSignatureGeneration(_)) => c::ErrorKind::FormatSignatureInvalidSignatureGeneration,
+            Format::SealedSignature => c::ErrorKind::FormatSealedSignature,
+            Format::EmptyKeys => c::ErrorKind::FormatEmptyKeys,
+            Format::UnknownPublicKey => c::ErrorKind::FormatUnknownPublicKey,
+            Format::DeserializationError(_) => c::ErrorKind::FormatDeserializationError,
+            Format::SerializationError(_) => c::ErrorKind::FormatSerializationError,
+            Format::BlockDeserializationError(_) => c::ErrorKind::FormatBlockDeserializationError,
+            Format::BlockSerializationError(_) => c::ErrorKind::FormatBlockSerializationError,
+            Format::Version { .. } => c::ErrorKind::FormatVersion,
+            Format::InvalidKeySize(_) => c::ErrorKind::FormatInvalidKeySize,
+            Format::InvalidSignatureSize(_) => c::ErrorKind::FormatInvalidSignatureSize,
+            Format::InvalidKey(_) => c::ErrorKind::FormatInvalidKey,
+            Format::SignatureDeserializationError(_) => c::ErrorKind::FormatSignatureDeserializationError,
+            Format::BlockSignatureDeserializationError(_) => c::ErrorKind::FormatBlockSignatureDeserializationError,
+            Format::InvalidBlockId(_) => c::ErrorKind::FormatInvalidBlockId,
+            Format::ExistingPublicKey(_) => c::ErrorKind::FormatExistingPublicKey,
+            Format::SymbolTableOverlap => c::ErrorKind::FormatSymbolTableOverlap,
+            Format::PublicKeyTableOverlap => c::ErrorKind::FormatPublicKeyTableOverlap,
+            Format::UnknownExternalKey => c::ErrorKind::FormatUnknownExternalKey,
+            Format::UnknownSymbol(_) => c::ErrorKind::FormatUnknownSymbol,
+            Format::PKCS8(_) => c::ErrorKind::FormatPKCS8,
+        }),
+        MErr::Lib(Token::Base64(_)) => {
             // any of the Format* kinds
             let mut v: Vec<u32> = (c::ErrorKind::FormatSignatureInvalidFormat as u32..=c::ErrorKind::FormatUnknownSymbol as u32).collect();
             v.extend(c::ErrorKind::FormatInvalidKeySize as u32..=c::ErrorKind::FormatSignatureInvalidSignatureGeneration as u32);
@@ -783,7 +817,7 @@ impl<'a> Exec<'a> {
                     }
                 }
             }
-            Op::From { t, pk, corrupt } => {
+            Op::From { t, pk, corrupt, how } => {
                 let (ti, pi) = match (pick!(self.slots.t, *t), pick!(self.slots.pk, *pk)) {
                     (Some(a), Some(b)) => (a, b),
                     _ => return,
@@ -795,7 +829,32 @@ impl<'a> Exec<'a> {
                 if *corrupt {
                     self.stats.bump("fault.corrupt_token");
                     let n = bytes.len();
-                    bytes[n / 2] ^= 0x40;
+                    use prost::Message;
+                    let mut structured = biscuit_auth::format::schema::Biscuit::decode(&bytes[..]).ok();
+                    match (how % 6, structured.as_mut()) {
+                        (1, Some(t)) => t.authority.signature.truncate(10),
+                        (2, Some(t)) => {
+                            let last = t.blocks.last_mut().unwrap_or(&mut t.authority);
+                            last.signature.push(0);
+                        }
+                        (3, Some(t)) => t.authority.next_key.key.truncate(7),
+                        (4, Some(t)) => {
+                            let last = t.blocks.last_mut().unwrap_or(&mut t.authority);
+                            last.signature.clear();
+                        }
+                        (5, _) => {
+                            bytes.truncate(n - n / 3);
+                            structured = None;
+                        }
+                        _ => {
+                            bytes[n / 2] ^= 0x40;
+                            structured = None;
+                        }
+                    }
+                    if let Some(t) = structured {
+                        bytes.clear();
+                        let _ = t.encode(&mut bytes);
+                    }
                 }
                 let pp = if null { 0 } else { self.slots.pk[pi].0 };
                 let b2 = bytes.clone();
@@ -1442,7 +1501,7 @@ impl Engine for CapiEngine {
                     Op::BlockAdd { l: rng.below(3), kind: k, text: gen_text(&mut rng, k) }
                 }
                 12 => Op::Append { t: rng.below(4), l: rng.below(3), kp: rng.below(4) },
-                13 => Op::From { t: rng.below(4), pk: rng.below(4), corrupt: rng.chance(1, 4) },
+                13 => Op::From { t: rng.below(4), pk: rng.below(4), corrupt: rng.chance(1, 3), how: rng.below(6) as u8 },
                 14 => Op::Serialize { t: rng.below(4) },
                 15 => Op::SerializeSealed { t: rng.below(4) },
                 16 => Op::BlockCount { t: rng.below(4) },
